@@ -12,7 +12,7 @@ from .spec import Clause, FnContract, Interference, RaisesClause, Spec
 from .values import (ANY, BOOL, INT, PY, REAL, STR, Ty, Unsupported, V, coerce, fresh, fresh_name, from_smt, mk_bool,
                      mk_int, mk_none, mk_real, mk_str, obj, parse_ty, to_smt)
 
-MOD = z3.Const('$module', Ref)   # owner of module-level mutable globals
+MOD = Ref.obj(z3.IntVal(0))   # owner of module-level mutable globals
 
 
 class ExecBase:
@@ -150,6 +150,9 @@ class ExecBase:
             return r
         return v
 
+    def is_alloc(self, r, now=None):
+        return smt.born(r) < (self.st.now if now is None else now)
+
     # ------------------------------------------------------------------ typing facts
     def assume_type(self, v: V):
         t = v.ty
@@ -189,13 +192,12 @@ class ExecBase:
     def fresh_obj(self, cls: str, base='new') -> V:
         oid = z3.Int(fresh_name(base + '_' + cls))
         r = Ref.obj(oid)
-        alloc = self.heap_arr('$alloc')
-        self.assume(z3.Not(z3.Select(alloc, r)))
+        self.assume(smt.born(r) == self.st.now)
         self.assume(oid > 0)
         cid = smt.CLASSES.get(cls)
         if cid is not None:
             self.assume(smt.tag(r) == cid)
-        self.st.heap['$alloc'] = z3.Store(alloc, r, True)
+        self.st.now = self.st.now + 1
         return V(obj(cls), r)
 
     def fresh_exc(self, cls, base='exc', exact=False) -> V:
@@ -203,15 +205,14 @@ class ExecBase:
         names = (cls,) if isinstance(cls, str) else tuple(cls)
         oid = z3.Int(fresh_name(base))
         r = Ref.obj(oid)
-        alloc = self.heap_arr('$alloc')
-        self.assume(z3.Not(z3.Select(alloc, r)))
+        self.assume(smt.born(r) == self.st.now)
         self.assume(oid > 0)
         if exact and len(names) == 1:
             self.assume(smt.tag(r) == smt.CLASSES[names[0]])
         else:
             self.assume(z3.Or(*[smt.issub(smt.tag(r), smt.CLASSES[n]) for n in names]))
         self.assume(smt.issub(smt.tag(r), smt.CLASSES['BaseException']))
-        self.st.heap['$alloc'] = z3.Store(alloc, r, True)
+        self.st.now = self.st.now + 1
         return V(obj('BaseException'), r)
 
     def raise_new(self, cls: str, origin=''):
